@@ -17,7 +17,7 @@ RULE = ("plans: 1-6 hostile peers (mutated HTTP/SOCKS4/SOCKS5/auth messages: fli
         "message was consumed by a decoder (the proxy read >= 1 byte or datagram of it); distinct = event-order hash")
 LEVEL_TEXT = ("seeded exploration of the real decoders in place (listeners, connectors, frame readers, QUIC datagram thread): the shipped profile aborts on any panic, so the "
               "shadow build unwinds and a panic hook records message and location; any panic, a dead process, or a canary that is not served within 5 virtual s is a violation")
-LEVEL_NOTE = "hostile input length is capped per plan (<= 70 KB), so unbounded buffering is not judged; the TPROXY listener is not simulated; component-level volume for the fragment decoder is in C11"
+LEVEL_NOTE = "hostile input length is capped per plan (<= 70 KB), so unbounded buffering is not judged; the TPROXY listener is only reached in TCP mode (no peer-controlled parsing there), its UDP mode (recvmsg control messages) is not simulated; component-level volume for the fragment decoder is in C11"
 ASSUMPTIONS = []
 
 
